@@ -46,12 +46,14 @@ pub const SCHEMA_VARIANT: &str = r#"
 entity Group in [Group];
 entity User in [Group] = { level: Long, active: Bool, manager?: User, friends: Set<User>, home?: Folder, profile: { dept: String, boss?: User, ip: ipaddr } };
 entity Folder in [Folder] = { admin?: User, depth: Long };
-entity Doc in [Folder] = { owner: User, readers: Set<User>, parent?: Doc, public: Bool, team?: Group, score: decimal, meta?: { reviewers: Set<User>, lead?: User } } tags String;
+entity Doc in [Folder] = { owner: User, readers: Set<User>, parent?: Doc, public: Bool, team?: Group, score: decimal, meta?: { reviewers: Set<User>, lead?: User }, auditor?: A::Acct } tags String;
+namespace A { entity Acct; }
+namespace B { entity Acct; }
 action anyop;
 action readonly in [anyop];
-action view in [readonly] appliesTo { principal: [User], resource: [Doc], context: { via?: User, n: Long, docs?: Set<Doc> } };
-action edit in [anyop] appliesTo { principal: [User], resource: [Doc], context: { via?: User, n: Long, docs?: Set<Doc> } };
-action browse in [readonly] appliesTo { principal: [User], resource: [Folder], context: { via?: User, n: Long, docs?: Set<Doc> } };
+action view in [readonly] appliesTo { principal: [User], resource: [Doc], context: { via?: User, n: Long, docs?: Set<Doc>, ext?: B::Acct } };
+action edit in [anyop] appliesTo { principal: [User], resource: [Doc], context: { via?: User, n: Long, docs?: Set<Doc>, ext?: B::Acct } };
+action browse in [readonly] appliesTo { principal: [User], resource: [Folder], context: { via?: User, n: Long, docs?: Set<Doc>, ext?: B::Acct } };
 action admin appliesTo { principal: [User], resource: [Folder, Doc], context: { n: Long } };
 "#;
 pub const SCHEMA_BROKEN_SYNTAX: &str = "entity User in [Group = { level: Long };";
@@ -1244,7 +1246,11 @@ fn gen_ps(rng: &mut Rng) -> PsDoc {
                 let p = if sp == exact { Some(format!("{}::\"{}\"", if rng.pct(70) { "User" } else { "Group" }, if rng.pct(70) { rng.pick(&users).to_string() } else { "g0".into() })) } else { None };
                 let r = if sr == exact { Some(format!("Folder::\"f{}\"", rng.below(2))) } else { None };
                 let target = if rng.pct(92) { tid.clone() } else { "missing".to_string() };
-                links.push(LinkDoc { tid: target, id: format!("l{k}{j}"), p, r });
+                links.push(LinkDoc { tid: target.clone(), id: format!("l{k}{j}"), p: p.clone(), r: r.clone() });
+                // now and then the same instantiation again under another id
+                if rng.pct(15) {
+                    links.push(LinkDoc { tid: target, id: format!("l{k}{j}-again"), p, r });
+                }
             }
         }
     }
@@ -1316,7 +1322,8 @@ impl World for Frontends {
         // policy sets without a designed-invalid document (the CLI ops prefer them, so that most
         // spawns reach a decision)
         let good_ps: Vec<u8> = psets.iter().enumerate().filter(|(_, p)| !p.statics.iter().any(|(id, _)| id == "bad" || id == "tmpl-in-static") && !p.links.iter().any(|l| l.tid == "missing")).map(|(i, _)| i as u8).collect();
-        let stores: Vec<Vec<Value>> = (0..rng.range(1, 3)).map(|_| crate::worlds::batched::gen_store(&mut rng)).collect();
+        // now and then a store without any entity (with a schema, the API still adds the action entities)
+        let stores: Vec<Vec<Value>> = (0..rng.range(1, 3)).map(|_| if rng.pct(12) { vec![] } else { crate::worlds::batched::gen_store(&mut rng) }).collect();
         let nops = rng.range(8, 28);
         let cli_w = if std::env::var("VERIF_NO_CLI").is_ok() { 0 } else { 1 };
         let w: Vec<u32> = vec![8, 7, 4, 12, 3, 2, 2, 2, cli_w, 3];
